@@ -55,12 +55,9 @@ def _validate(vtype, val, name):
         itype = vtype.__args__[0]
         if itype != func_xltypes.XlArray:
             val = flatten(val)
-        # Errors are values that propagate: the leftmost error among the
-        # items is the result. Only items that merely cannot be converted
-        # (e.g. text in a range that is summed) are skipped below.
-        for item in val:
-            if isinstance(item, xlerrors.ExcelError):
-                raise item
+        # Only items that merely cannot be converted (e.g. text in a range
+        # that is summed) are skipped; error items are handed on by
+        # validate_args, see _first_error().
         return tuple(filter(
             lambda x: x is not None,
             [_safe_validate(itype, item, name) for item in val]
@@ -76,6 +73,23 @@ def _validate(vtype, val, name):
         raise xlerrors.ValueExcelError(val)
 
     return val
+
+
+def _first_error(vtype, val):
+    """The leftmost error among the items of a list-typed argument.
+
+    Errors are values that propagate. The item is returned, never raised:
+    raising would attach a traceback to an error object that is also an
+    element of the range's array, a reference cycle through a numpy object
+    array that the garbage collector cannot free.
+    """
+    if getattr(vtype, '__origin__', None) in [list, tuple]:
+        if vtype.__args__[0] != func_xltypes.XlArray:
+            val = flatten(val)
+        for item in val:
+            if isinstance(item, xlerrors.ExcelError):
+                return item
+    return None
 
 
 def _safe_validate(vtype, val, name):
@@ -95,6 +109,9 @@ def validate_args(func):
         for pname, value in list(bound.arguments.items()):
             if isinstance(value, xlerrors.ExcelError):
                 return value
+            error = _first_error(sig.parameters[pname].annotation, value)
+            if error is not None:
+                return error
             try:
                 bound.arguments[pname] = _validate(
                     sig.parameters[pname].annotation, value, pname)
